@@ -599,9 +599,29 @@ def stage_split_fields(ctx: Ctx):
     layouts = ['a, k=1, *b', 'a, k=1, *b, j=2', 'k=1, *b', 'a, *b, k=1, **d', 'a, b', 'k=1, j=2', '*b, k=1, *c, j=2, **d', 'a, k=1, *b, j=2, *c']
     wrap = [('f({})', 'expr', ('args', 'keywords'), lambda m: m), ('class C({}): pass', 'exec', ('bases', 'keywords'), lambda m: m.body[0])]
     news = {'pos': [['n'], ['n', 'o'], ['*n']], 'kw': [['n=2'], ['n=2', 'o=3'], ['**n']]}
+    aterms, ameta = [], []
     for layout, (tpl, mode, fields, getn) in itertools.product(layouts, wrap):
         src = tpl.format(layout)
         probe = getn(fst.FST(src, mode))
+        # models/Arglikes.v: the merged source order of the two lists, the position of every keyword in it, and the guard's verdict on an insertion at every keyword index
+        pos_nodes = getattr(probe.a, fields[0])
+        kw_nodes = probe.a.keywords
+        merged = sorted([(n.lineno, n.col_offset, 'A') for n in pos_nodes] + [(n.lineno, n.col_offset, 'K') for n in kw_nodes])
+        tags = '[' + '; '.join(t for _, _, t in merged) + ']'
+        for i in range(len(kw_nodes) + 1):
+            real_pos = len(merged) if i == len(kw_nodes) else merged.index((kw_nodes[i].lineno, kw_nodes[i].col_offset, 'K'))
+            m_ = fst.FST(src, mode)
+            try:
+                getn(m_).put_slice('zz=0', i, i, 'keywords')
+                refused = False
+            except fst.NodeError as e:
+                refused = 'precedes' in str(e)
+            except Exception:
+                refused = None
+            if refused is None:
+                continue
+            aterms.append(f'Nat.eqb (match kw_pos {tags} {i} with Some p => p | None => 999 end) {real_pos} && Bool.eqb (guard_refuses {tags} {i}) {cbool(refused)}')
+            ameta.append({'src': src, 'keyword_index': i, 'merged_order': [t for _, _, t in merged], 'real_position': real_pos, 'real_refuses_insertion': refused})
         for field in fields:
             olds = [ast.unparse(x) for x in getattr(probe.a, field)]
             other = fields[1] if field == fields[0] else fields[0]
@@ -635,6 +655,8 @@ def stage_split_fields(ctx: Ctx):
                 if got != exp or other_after != other_before or not re_ok:
                     ctx.violation(f'split|structure|{type(node.a).__name__}.{field}', 'resulting field differs from old[:start] + new + old[stop:], or the other argument field changed, or the source does not parse to the tree',
                                   {**desc, 'result_src': m.src, 'expected_field': exp, 'got_field': got, 'other_field_unchanged': other_after == other_before, 'source_parses_to_tree': re_ok})
+    failed = coq_eval_bools('C03_arglikes', 'From Coq Require Import List Bool Arith.\nFrom PF Require Import models.Arglikes.\nImport ListNotations.\n', aterms, shard=500)
+    ctx.correspondence('models/Arglikes.v kw_pos / guard_refuses == merged source order of args+keywords and the refusal of keyword insertions by real put_slice', len(aterms), [ameta[k] for k in failed])
 
 
 def run(ctx: Ctx):
